@@ -494,4 +494,33 @@ theorem quiet_of_not_pending (c : Cfg) (s : State) (h : ¬ ∃ r, Pending c s r)
     apply List.eq_nil_iff_forall_not_mem.mpr
     intro r hr; exact h ⟨r, Or.inr ⟨i, hi, hr⟩⟩
 
+/-- every state has a maximal run of the system on its own (runs are bounded by `mu`) -/
+theorem exists_maximal_run (c : Cfg) : ∀ (n : Nat) (s : State), mu c s ≤ n →
+    ∃ as s', Core.run (ustep c) s as = some s' ∧ ∀ a, ustep c s' a = none := by
+  intro n
+  induction n with
+  | zero =>
+    intro s hs
+    refine ⟨[], s, rfl, ?_⟩
+    intro a
+    cases h : ustep c s a with
+    | none => rfl
+    | some s1 => have := mu_ustep c s a s1 h; omega
+  | succ n ih =>
+    intro s hs
+    by_cases hmax : ∀ a, ustep c s a = none
+    · exact ⟨[], s, rfl, hmax⟩
+    · have : ∃ a s1, ustep c s a = some s1 := by
+        apply Classical.byContradiction
+        intro hne
+        apply hmax
+        intro a
+        cases h : ustep c s a with
+        | none => rfl
+        | some s1 => exact absurd ⟨a, s1, h⟩ hne
+      obtain ⟨a, s1, h1⟩ := this
+      have hlt := mu_ustep c s a s1 h1
+      obtain ⟨as, s', hrun, hm⟩ := ih s1 (by omega)
+      exact ⟨a :: as, s', by rw [Core.run_cons, h1]; simpa using hrun, hm⟩
+
 end Batch
